@@ -43,7 +43,7 @@ Definition wstep_at (o : op) (c r : Z) (w : wcell) : wcell :=
   | OSet col rw t v => if (c =? col) && (r =? rw) then ((t, v, None), snd w) else w
   | OFormula col rw f =>
       if (c =? col) && (r =? rw)
-      then (let '(t, v, _) := fst w in if is_nil f then (t, v, None) else (3, v, Some f), snd w)
+      then (let '(t, v, _) := fst w in if is_nil f then (t, v, None) else (3, (if t =? 2 then [] else v), Some f), snd w)
       else w
   | OStyle col rw s => if (c =? col) && (r =? rw) then (fst w, s) else w
   | ORowStyle rw s => if r =? rw then (fst w, s) else w
